@@ -164,8 +164,6 @@ def in_domain(inp: dict) -> bool:
                 return False
     if len({n for n, _ in inp["schemas"]}) != len(inp["schemas"]):
         return False
-    if any(nd[0] == "ref" for _, nd in inp["schemas"]):
-        return False  # top-level alias: RuntimeError "was not parsed" (F08c, owned by C08); oracle still runs
     if anonymous_complex_array(inp["schemas"]):
         return False
     if bare_misplaced(inp["schemas"]):
@@ -292,6 +290,13 @@ def oracle(inp: dict, obs: Any, schemas: dict | None) -> list[str]:
             s = schemas.get(NameSanitizer.sanitize_class_name(n))
         return s
 
+    def alias_chain(n: str) -> list[str]:
+        out = [n]
+        while n in spec and spec[n][0] == "ref" and spec[n][1] not in out:
+            n = spec[n][1]
+            out.append(n)
+        return out
+
     def follow(p, hops=0):
         """a property/holder whose `type` names another registered schema designates that schema"""
         while p is not None and p.type is not None and p.type not in BASIC and hops < 8:
@@ -308,9 +313,11 @@ def oracle(inp: dict, obs: Any, schemas: dict | None) -> list[str]:
             return None
         k = nd[0]
         if k == "ref":
-            want = NameSanitizer.sanitize_class_name(nd[1])
             got = p.type if (p.type is not None and p.type not in BASIC) else p.name
-            if got != want and got != nd[1]:
+            ok_names = set()
+            for a in alias_chain(nd[1]):       # a top-level alias is the same model as its target
+                ok_names |= {a, NameSanitizer.sanitize_class_name(a)}
+            if got not in ok_names:
                 return f"{where}: should reference {nd[1]}, references {got}"
             if nd[1] in spec and model_of(nd[1]) is None:
                 return f"{where}: references {nd[1]} which has no model"
@@ -376,7 +383,12 @@ def oracle(inp: dict, obs: Any, schemas: dict | None) -> list[str]:
             fails.append(f"{n}: the model is a placeholder without fields (flags {flags_of(s)})")
             continue
         if nd[0] == "ref":
-            continue
+            # an alias declares what its target declares (fields, kind); an alias chain that never reaches a
+            # non-alias schema (cycle of aliases / dangling) declares nothing
+            t = alias_chain(n)[-1]
+            if t not in spec or spec[t][0] == "ref":
+                continue
+            nd = spec[t]
         r = conforms(nd, s, n)
         if r:
             fails.append(r)
@@ -748,6 +760,64 @@ def allof_shape_cases() -> list[dict]:
     return out
 
 
+ALIAS_NAMES = ["Alias", "AliasTwo", "Shortcut"]
+
+
+def add_aliases(inp: dict, rng) -> dict:
+    """top-level pure aliases: before/after the target, chains, aliases of any kind of schema, references routed
+    through the alias (so that cycles go through it)"""
+    sch = inp["schemas"]
+    declared = [n for n, _ in sch]
+    prev = None
+    for a in rng.sample(ALIAS_NAMES, rng.randint(1, 3)):
+        if a in declared:
+            continue
+        target = prev if (prev and rng.random() < .35) else rng.choice(declared)
+        sch.insert(rng.randint(0, len(sch)), [a, ["ref", target]])
+        prev = a
+        if rng.random() < .6:   # route some existing references to `target` through the alias
+            def reroute(nd):
+                k = nd[0]
+                if k == "ref" and nd[1] == target and rng.random() < .6:
+                    nd[1] = a
+                elif k == "obj":
+                    for _, b in nd[1]:
+                        reroute(b)
+                elif k in ("arr", "map"):
+                    reroute(nd[1])
+                elif k in ("oneof", "anyof", "allof"):
+                    for x in nd[1]:
+                        reroute(x)
+            for n, nd in sch:
+                if n not in ALIAS_NAMES:
+                    reroute(nd)
+    return inp
+
+
+def alias_cases() -> list[dict]:
+    tgt = {"obj": ["obj", [["ident", ["prim", "integer"]], ["label", ["prim", "string"]]], ["ident"]],
+           "enum": ["enum"], "arr": ["arr", ["prim", "string"]], "prim": ["prim", "integer"],
+           "arr_obj": ["arr", ["obj", [["xx", ["prim", "string"]]], []]], "map": ["map", ["prim", "string"]],
+           "allof": ["allof", [["ref", "Base"], ["bare", ["label"], "required"]]],
+           "cyc": ["obj", [["peer", ["ref", "Alias"]], ["vv", ["prim", "string"]]], []]}
+    base = ["Base", ["obj", [["ident", ["prim", "integer"]], ["label", ["prim", "string"]]], ["ident"]]]
+    user = ["Holder", ["obj", [["thing", ["ref", "Alias"]], ["things", ["arr", ["ref", "AliasTwo"]]]], ["thing"]]]
+    out = []
+    for kind, nd in tgt.items():
+        items = [["Target", nd], ["Alias", ["ref", "Target"]], ["AliasTwo", ["ref", "Alias"]], user]
+        if kind == "allof":
+            items.append(base)
+        for order in itertools.permutations(range(len(items))):
+            if len(items) == 5 and order[4] != 4 and order[0] != 4:
+                continue
+            out.append({"schemas": [json.loads(json.dumps(items[i])) for i in order]})
+    out.append({"schemas": [["Alias", ["ref", "AliasTwo"]], ["AliasTwo", ["ref", "Alias"]]]})          # aliases of each other
+    out.append({"schemas": [["Alias", ["ref", "Alias"]]]})                                             # alias of itself
+    out.append({"schemas": [["Child", ["allof", [["ref", "Alias"], ["obj", [["bb", ["prim", "integer"]]], ["bb"]]]]],
+                            ["Alias", ["ref", "Base"]], base]})                                        # allOf parent through an alias
+    return out
+
+
 def gen_malformed(rng) -> dict:
     """outside the model's name domain / shape domain: oracle only"""
     weird = ["A", "AB", "userGroup", "user_group", "Next", "S1a", "Üser"]
@@ -810,6 +880,10 @@ def build_inputs(chk: Check) -> list[dict]:
     n = 2500 if chk.thorough else 260
     shapes = allof_shape_cases()
     inputs += shapes if chk.thorough else rng.sample(shapes, 40)
+    aliases = alias_cases()
+    inputs += aliases if chk.thorough else rng.sample(aliases, 40)
+    inputs += [add_aliases(gen_spec(rng, 5), rng) for _ in range(n // 5)]
+    inputs += [add_aliases(tighten(gen_core(rng, 5, acyclic=True), rng), rng) for _ in range(n // 8)]
     inputs += [tighten(gen_spec(rng, 7), rng) if i % 2 else gen_spec(rng, 7) for i in range(n)]
     inputs += [tighten(gen_spec(rng, 7, acyclic=True), rng) for _ in range(n // 3)]
     inputs += [tighten(gen_core(rng, 7, acyclic=True), rng) for _ in range(n // 3)]
@@ -819,7 +893,7 @@ def build_inputs(chk: Check) -> list[dict]:
     return inputs
 
 
-FINDING_BITS = {1: "F02a", 2: "F02b", 3: "F02c", 4: "F02d", 5: "F02f"}
+FINDING_BITS = {1: "F02a", 2: "F02b", 3: "F02c", 4: "F02d"}
 
 
 def main(chk: Check, replay: dict | None = None) -> int:
